@@ -104,6 +104,9 @@ def outcomes():
     # a message that passes for a response but cannot be serialised (the failure only shows when it is being sent)
     o["ret-msg-strpayload"] = (lambda: Message(code=codes.CONTENT, payload=MARK + "-text"), "bare500")
     o["ret-msg-intpayload"] = (lambda: Message(code=codes.CONTENT, payload=4711), "bare500")
+    # ... for other reasons than the payload's type: option values that only fail when they are encoded (OverflowError, AttributeError)
+    o["ret-msg-negmaxage"] = (lambda: Message(code=codes.CONTENT, payload=b"x", max_age=-7), "bare500")
+    o["ret-msg-byteslocpath"] = (lambda: Message(code=codes.CREATED, location_path=(b"created", b"1")), "bare500")
     o["raise-unprintable"] = (lambda: (_ for _ in ()).throw(Unprintable()), "bare500")
     o["raise-unprintable-arg"] = (lambda: (_ for _ in ()).throw(ValueError(UnprintableArg())), "bare500")
     o["raise-quacking"] = (lambda: (_ for _ in ()).throw(QuacksRenderable()), "bare500")
